@@ -128,6 +128,14 @@ MFfind(e) ==
                     "GrowthKeepsKeys", bad)
      /\ UNCHANGED <<conf, cur, slots, wins, losers, xk, invoked, retk, ctors, fullrets>>
 
+\* quiescent re-insertion of every key by the driver: a stored key is reported as present, at its slot
+MFemp(e) ==
+  LET k == e.key
+      should == k \in wins \/ k \in FillKeys \/ k \in xk
+  IN /\ bad' = Flag(should /\ e.ins, "OneWinner",
+               Flag(should /\ (e.res < 0 \/ \E h \in slots : h[1] = k /\ h[2] # e.res), "GrowthKeepsKeys", bad))
+     /\ UNCHANGED <<conf, cur, slots, wins, losers, xk, invoked, retk, ctors, fullrets>>
+
 MEnd(e) ==
   /\ bad' = IF e.status \in {"crash", "hang", "deadlock"} THEN Flag(TRUE, "NoCrash", bad)
             ELSE IF e.status = "ok"
@@ -146,6 +154,7 @@ MNext ==
           [] e.k = "keq" -> MKeq(e)
           [] e.k = "final" -> MFinal(e)
           [] e.k = "ffind" -> MFfind(e)
+          [] e.k = "femp" -> MFemp(e)
           [] e.k = "end" -> MEnd(e)
   /\ l' = l + 1
   /\ TLCSet(1, l')
